@@ -65,10 +65,15 @@ impl GlobalIndexCatalogCache {
     }
 
     pub fn invalidate_segment(&self, segment_label: &str) {
+        // Keys are file paths (`<shard>/<segment>/<uid>.<ext>`): match on the segment directory.
         if let Ok(mut guard) = self.inner.lock() {
             let keys: Vec<_> = guard
                 .iter()
-                .filter(|(key, _)| key.path.ends_with(segment_label))
+                .filter(|(key, _)| {
+                    key.path
+                        .parent()
+                        .is_some_and(|dir| dir.ends_with(segment_label))
+                })
                 .map(|(key, _)| key.clone())
                 .collect();
             for key in keys {
@@ -77,7 +82,11 @@ impl GlobalIndexCatalogCache {
         }
 
         if let Ok(mut inflight) = self.inflight.lock() {
-            inflight.retain(|key, _| !key.path.ends_with(segment_label));
+            inflight.retain(|key, _| {
+                !key.path
+                    .parent()
+                    .is_some_and(|dir| dir.ends_with(segment_label))
+            });
         }
     }
 
